@@ -81,6 +81,8 @@ pub struct LogEntry
     pub in_cmd: bool,
     pub op: Op,
     pub ok: bool,
+    /// for renames: "dst=absent" | "dst=same" | "dst=different"
+    pub note: &'static str,
 }
 
 #[derive(Clone, Debug)]
@@ -261,10 +263,15 @@ impl Fs
 
     fn log(&mut self, op: Op, ok: bool)
     {
+        self.log_note(op, ok, "");
+    }
+
+    fn log_note(&mut self, op: Op, ok: bool, note: &'static str)
+    {
         self.seq += 1;
         if self.log_enabled
         {
-            self.log.push(LogEntry { seq: self.seq, thread: sched::current_thread_id(), in_cmd: in_cmd(), op, ok });
+            self.log.push(LogEntry { seq: self.seq, thread: sched::current_thread_id(), in_cmd: in_cmd(), op, ok, note });
         }
     }
 
@@ -907,6 +914,12 @@ impl System for VerifSystem
             g.log(op, true);
             return Ok(());
         }
+        let note = match (g.file_inode(from), g.file_inode(to))
+        {
+            (_, None) => "dst=absent",
+            (Some(a), Some(b)) => if g.inodes[a].data == g.inodes[b].data { "dst=same" } else { "dst=different" },
+            (None, Some(_)) => "dst=different",
+        };
         let (mut g, d) = self.mutation_point(g, &op);
         if let MutDecision::Crash = d
         {
@@ -921,7 +934,7 @@ impl System for VerifSystem
             let (m, name) = g.parent_mut(to).unwrap();
             m.insert(name, node);
         }
-        g.log(op, true);
+        g.log_note(op, true, note);
         Ok(())
     }
 
